@@ -52,15 +52,17 @@ def check(ctx):
         raise AnalysisError(f"{qh}: the quad integrand is not a local function")
     fi = fv.info
     ctx.touch(fi.qualname)
-    itc = interp(ctx, opaque={VQ, ZQ})
+    # compared by value: only the z-factor (a numerical root) is kept as an atom; the library's viscosity is evaluated at the
+    # integration variable and must appear - whether the integrand calls viscosity_Sutton or a worker it shares with it
+    itc = interp(ctx, opaque={ZQ})
     pc = only(itc.run_function(fi.qualname, args={fi.params[0]: Num(nf.sym(Q))}), fi.qualname)
     own = ["temperature", Q, "temperature_pseudocritical", "pressure_pseudocritical"]
-    mu = nf.fn(VQ, *[nf.sym(n) for n in own + ["specific_gravity"]])
     z = nf.fn(ZQ, *[nf.sym(n) for n in own])
+    mu_q = only(run(ctx, VQ, opaque={ZQ}, args={"pressure": Num(nf.sym(Q))}), VQ).value.nf
     ctx.identity(
         "C08-a", qh + ":integrand", fi.where(),
         "integrand == 2 q / (viscosity_Sutton(T, q, ...) * z_factor_DAK(T, q, ...)) with q the integration variable (not the outer pressure)",
-        pc.value.nf if isinstance(pc.value, Num) else nf.sym("?"), nf.div(nf.mul(two, nf.sym(Q)), nf.mul(mu, z)),
+        pc.value.nf if isinstance(pc.value, Num) else nf.sym("?"), nf.div(nf.mul(two, nf.sym(Q)), nf.mul(mu_q, z)),
     )
     res = evs[0].data["result"]
     rv = itc.to_nf(p.value) if p.value is not None else {}
